@@ -34,7 +34,7 @@ Fixpoint replace_nth {A} (n : nat) (x : A) (l : list A) : list A :=
 Definition acc_set (a : accessor) (container v : obj) : option obj :=
   match container, a with
   | VList l, AccList pos =>
-      if (pos <? 0)%Z then None     (* Go panics: outside the domain of fidelity *)
+      if (pos <? 0)%Z then None     (* an error object (a runtime panic before fix 5fccea2) *)
       else if Nat.ltb (Z.to_nat pos) (List.length l) then Some (VList (replace_nth (Z.to_nat pos) (Some v) l))
       else Some (VList (l ++ [Some v]))
   | VMap m, AccMap k => Some (VMap (insert k v m))
